@@ -289,20 +289,17 @@ func parserRequestBodyFile(req *Request) error {
 
 // parserResponseCookie parses the Set-Cookie headers from the response and stores them.
 func parserResponseCookie(c *Client, resp *Response, req *Request) error {
-	var err error
+	// A Set-Cookie line that cannot be parsed is ignored, as clients do; it must neither
+	// fail the response nor (half-parsed) reach the response's cookies or the jar.
 	resp.RawResponse.Header.VisitAllCookie(func(key, value []byte) {
 		cookie := fasthttp.AcquireCookie()
-		err = cookie.ParseBytes(value)
-		if err != nil {
+		if err := cookie.ParseBytes(value); err != nil {
+			fasthttp.ReleaseCookie(cookie)
 			return
 		}
 		cookie.SetKeyBytes(key)
 		resp.cookie = append(resp.cookie, cookie)
 	})
-
-	if err != nil {
-		return err
-	}
 
 	// Store cookies in the cookie jar if available.
 	if c.cookieJar != nil {
